@@ -175,7 +175,7 @@ UNITS["C16"] = [
          under_contract=["frag_uni_dispatch", "frag_serve_sync_prologue", "frag_sync_candidate", "frag_broadcast_target"], vacuity=["frag_uni_dispatch", "frag_serve_sync_prologue", "frag_sync_candidate", "frag_broadcast_target"],
          assumptions=["fragments wrapped as functions (continue -> return Exit::Continue; return Ok(0) -> Returned(0)); `.instrument(..).await` dropped from the one awaited call, whose effect is a ghost log of written messages",
                       "speedy #[default_on_eof] on cluster_id decodes an absent field to ClusterId(0) (assumed)",
-                      "the uni handler captures cluster_id once per connection (runtime switch of cluster id not covered)"]),
+                      "the node's own cluster id is read per frame through a closure (unit c16_fresh_id decides that no copy taken at accept time is used)"]),
 ]
 
 UNITS["C05"] = [
@@ -283,11 +283,13 @@ UNITS["C09"] = [
 ]
 
 UNITS["C07"] = [
+    dict(kind="structural", name="c07_chunker_ranges", check="chunker_ranges", file="crates/klukai-types/src/broadcast.rs", fn="broadcast_changes", min_sites=1,
+         trusted=["syntactic comparison (vx/structural.py chunker_ranges): the local broadcast announces seq 0 ..= last_seq over all rows of the version, selected in ascending seq order"]),
     dict(kind="structural", name="c07_sql_scoping", check="sql_actor_scoping", file="crates/klukai-types/src/change.rs",
          trusted=["heuristic SQL reading (see c03_sql_scoping)"]),
     dict(kind="verus", name="c07_broadcast", template="specs/c07_broadcast.vrs",
          under_contract=["frag_chunker_args", "frag_broadcast_msg"], vacuity=["frag_chunker_args", "frag_broadcast_msg"],
-         assumptions=["the rows come from `SELECT … FROM crsql_changes WHERE db_version = ? AND site_id = crsql_site_id() ORDER BY seq ASC` (not interpreted)",
+         assumptions=["the rows come from `SELECT … FROM crsql_changes WHERE db_version = ? AND site_id = crsql_site_id() ORDER BY seq ASC` (the ORDER BY and the (seq 0, last_seq) label are decided by unit c07_chunker_ranges; the row contents are SQLite's)",
                       "tokio::spawn / tx_bcast.send deliver the constructed message (not decided)"]),
     dict(kind="verus", name="c07_statements", template="specs/c07_statements.vrs",
          under_contract=["frag_run_statements"], vacuity=["frag_run_statements"],
